@@ -191,9 +191,13 @@ func runCase(c Case, st *ev.Stats) error {
 					// known finding: the post-negotiation re-resolution re-adds the vetoed state
 					// through the Add relation of another state that is active afterwards
 					readded := false
+					cand := model.NewSet(tx.Called)
 					for z := range after {
+						cand[z] = true
+					}
+					for z := range cand {
 						if z != s && model.AddClosure(sc, model.Set{z: true})[s] {
-							readded = true
+							readded = true // through a state active afterwards or a called sibling (which may itself be dropped later)
 						}
 					}
 					if readded && kf.IsKnown("C07-veto-readded-by-add") {
